@@ -2,6 +2,7 @@ package c05
 
 import (
 	"fmt"
+	"math"
 	"math/rand"
 	"strconv"
 	"strings"
@@ -54,8 +55,42 @@ func imin(a, b int) int {
 
 var numberStyles = []string{"int", "fixed3", "fixed6", "shortest", "exp", "g"}
 
+// hugeToken spells a whole-valued number beyond the int64 range (or at its boundary)
+// the way exporters and hand-written files do: plain digits, exponent form, with a
+// redundant ".0".
+func hugeToken(r *rand.Rand) string {
+	var t string
+	switch r.Intn(8) {
+	case 0:
+		t = []string{"1e19", "3e20", "2.5e25", "1e30", "3e38", "1.8446744e19", "9.223372e18", "5e22"}[r.Intn(8)]
+	case 1:
+		t = []string{"9223372036854775808", "9223372036854775807", "18446744073709551616", "9007199254740992", "9223373136366403584"}[r.Intn(5)]
+	case 2:
+		t = strconv.FormatFloat(float64(float32(math.Ldexp(1, 63)*math.Pow(10, r.Float64()*19.5))), 'f', 0, 64)
+	case 3:
+		t = strconv.FormatFloat(float64(float32(math.Ldexp(1, 63)*math.Pow(10, r.Float64()*19.5))), 'e', -1, 32)
+	case 4:
+		t = strconv.FormatFloat(math.Floor(math.Ldexp(1+r.Float64(), 53+r.Intn(10))), 'f', 0, 64)
+	case 5:
+		t = strconv.FormatFloat(float64(float32(math.Ldexp(1+r.Float64(), 64+r.Intn(60)))), 'f', 1, 64) // "….0"
+	case 6:
+		t = strconv.FormatFloat(float64(float32(math.Ldexp(1+r.Float64(), 24+r.Intn(39)))), 'f', -1, 64) // whole float32 below 2^63
+	case 7:
+		t = strconv.FormatFloat(math.Floor(math.Ldexp(1+r.Float64(), 20))+0.5, 'f', -1, 64) // k + 0.5, exactly a float32
+	}
+	if r.Intn(2) == 0 {
+		t = "-" + t
+	}
+	return t
+}
+
 func fmtNumber(r *rand.Rand, style string) string {
 	switch style {
+	case "huge-whole":
+		if r.Intn(3) != 0 {
+			return hugeToken(r)
+		}
+		return strconv.Itoa(r.Intn(11) - 5)
 	case "int":
 		return strconv.Itoa(r.Intn(11) - 5)
 	case "fixed3":
@@ -74,6 +109,11 @@ func fmtNumber(r *rand.Rand, style string) string {
 
 func fmtUnit(r *rand.Rand, style string) string {
 	switch style {
+	case "huge-whole":
+		if r.Intn(3) == 0 {
+			return hugeToken(r)
+		}
+		return strconv.FormatFloat(r.Float64(), 'f', 3, 64)
 	case "int":
 		return strconv.Itoa(r.Intn(2))
 	case "fixed3":
@@ -202,6 +242,10 @@ func genText(r *rand.Rand, tier string) (string, *textDesc) {
 	d := &textDesc{}
 	g := &textGen{r: r, d: d, flags: map[string]bool{}, noise: map[string]bool{}, eol: "\n"}
 	g.style = numberStyles[r.Intn(len(numberStyles))]
+	if r.Intn(25) == 0 {
+		g.style = "huge-whole" // a few % of the texts
+		d.Noise = append(d.Noise, "huge-whole")
+	}
 	for _, nz := range []string{"comments", "blank", "s/o", "trailing-space"} {
 		if r.Intn(4) == 0 {
 			g.noise[nz] = true
